@@ -1,5 +1,5 @@
 # replay of a bounded stand-in violation (C12): re-run native/c12_device.py
 import sys
-print("a source with squeezing value 0.4 not offered by the device raised ValueError instead of CircuitError: 'squeezing_amplitude_0' has invalid value 0.4. Only x=0, x=0.7 allowed.")
+print('Device.validate_parameters(s=[0, 0.3, 0.5643]) accepted the array; allowed values are [0, 0.5643, 1.0]')
 print('REPLAY-VIOLATION')
 sys.exit(1)
